@@ -27,6 +27,8 @@ SEED_EXPECT = {
     "C16-3": "R16.1", "C16-4": "R16.1", "C15-3": "R15.3", "C14-3": "R14.6", "C05-3": "R5.6", "C05-4": "R5.5",
     "C07-3": "R7.7", "C07-4": "R7.6", "C08-3": "R8.7", "C08-4": "R8.8", "C04-3": "R4.1", "C04-4": "R4.3", "C18-3": "R18.3",
     "C12-3": "R12.2", "C12-4": "R12.6", "C02-3": "R2.5", "C02-4": "R2.4", "C09-3": "R9.1", "C01-3": "R1.4", "C01-4": "R1.2",
+    "C06-3": "R6.7", "C06-4": "R6.7", "C13-3": "R13.3", "C13-4": "R13.2", "C20-3": "R20.5", "C20-4": "R20.2", "C17-3": "R17.5", "C17-4": "R17.",
+    "C19-3": "R19.2d", "C19-4": "R19.3a",
     "C03-3": "R3.6", "C03-4": "R3.6", "C11-1": "R11.7", "C11-2": "R11.6",
 }
 byprop = {}
